@@ -212,6 +212,19 @@ fn gen_ptxt(rng: &mut Rng, info: bool) -> Vec<u8> {
         }
     }
     t.retain(|&b| b != b'\t' && b != b'\n' && if info { b != b';' } else { true });
+    // the model does not cover the UTF-8 validity check of decoded strings: keep escapes < 0x80
+    let hv = |c: u8| (c as char).to_digit(16);
+    let mut i = 0;
+    while i < t.len() {
+        if t[i] == b'%' && i + 2 < t.len() + 0 && i + 2 <= t.len() - 1 {
+            if let (Some(h), Some(_)) = (hv(t[i + 1]), hv(t[i + 2])) {
+                if h >= 8 {
+                    t[i + 1] = b'0' + (h as u8 - 8);
+                }
+            }
+        }
+        i += 1;
+    }
     t
 }
 
